@@ -116,7 +116,7 @@ Url::Url(const String& url)
 	{
 		hoststart++;
 		hostend = url.indexOf(']', hoststart);
-		if (hostend < 0)
+		if (hostend < 0 || hostend > pathstart) // no closing bracket before the path: not a valid address
 		{
 			*this = Url();
 			return;
